@@ -87,6 +87,15 @@ func (c *prefixedConn) TakeRelaySegments() [][]byte {
 	return [][]byte{prefix}
 }
 
+// CloseWrite forwards the half-close to the wrapped connection so that relayCore can pass an
+// upstream EOF on to the client. Without it the wrapper hides the inner CloseWrite.
+func (c *prefixedConn) CloseWrite() error {
+	if wc, ok := c.Conn.(WriteCloser); ok {
+		return wc.CloseWrite()
+	}
+	return errCloseWriteUnsupported
+}
+
 func (c *prefixedConn) CopyRelayRemainder(dst io.Writer, buf []byte, record func(int64)) (int64, error) {
 	return relayCopyDirect(dst, c.Conn, buf, record)
 }
